@@ -462,4 +462,68 @@ theorem encRunF_valid (skip : Nat) : ∀ (bs : List UInt8) (ts : List Tree) (pos
     · exact encFields_valid _ _ f hf
     · exact ih _ _ f hf
 
+/-! ### codes of ANY length (1, 2, 3, ... words of the bit stack): the partly filled top word first, then only full 32-bit words -/
+
+theorem length_msbBits : ∀ (k n : Nat), (msbBits k n).length = k := by
+  intro k
+  induction k with
+  | zero => intro n; rfl
+  | succ k ih => intro n; simp [msbBits, ih]
+
+theorem length_fieldsBits (fs : List (Nat × Nat)) : (fieldsBits fs).length = (fs.map (·.1)).sum := by
+  induction fs with
+  | nil => rfl
+  | cons f fs ih => simp [fieldsBits_cons, length_msbBits, ih]
+
+theorem filter_pos_full (l : List (Nat × Nat)) (h : ∀ e ∈ l, e.1 = 32) : (l.filter fun e => e.1 > 0) = l := by
+  apply List.filter_eq_self.mpr
+  intro e he
+  have := h e he
+  simp [this]
+
+theorem sum_full (l : List (Nat × Nat)) (h : ∀ e ∈ l, e.1 = 32) : (l.map (·.1)).sum = 32 * l.length := by
+  induction l with
+  | nil => rfl
+  | cons f fs ih =>
+    have hf := h f (by simp)
+    have := ih (fun e he => h e (by simp [he]))
+    simp only [List.map_cons, List.sum_cons, List.length_cons, this, hf]
+    omega
+
+/-- shape of the `Hbitwrite(count, data)` list of one code, for every tree (well-formed or not) and every code length: at most one
+    partly filled word (1..31 bits: the top of the stack, the bits nearest the ROOT), followed by full 32-bit words only -/
+theorem encFields_shape (t : Tree) (s : Nat) :
+    ∃ top full : List (Nat × Nat), encFields t s = top ++ full ∧ top.length ≤ 1 ∧
+      (∀ f ∈ top, 1 ≤ f.1 ∧ f.1 < 32) ∧ (∀ f ∈ full, f.1 = 32) := by
+  have hfull := climbF_full TWICEMAX t (s + SUCCMAX) { top := (0, 0), below := [], mask := 1 } ⟨by simp, by simp⟩
+  unfold encFields
+  generalize climbF TWICEMAX t (s + SUCCMAX) { top := (0, 0), below := [], mask := 1 } = st at hfull
+  obtain ⟨h1, h2⟩ := hfull
+  by_cases h0 : st.top.1 > 0
+  · refine ⟨[st.top], st.below, ?_, by simp, ?_, h2⟩
+    · simp [h0, filter_pos_full _ h2]
+    · intro f hf
+      rw [List.mem_singleton.mp hf]
+      omega
+  · refine ⟨[], st.below, ?_, by simp, by simp, h2⟩
+    simp [h0, filter_pos_full _ h2]
+
+/-- the `count`s of the `Hbitwrite` calls of one code add up to the length of the ROOT-to-leaf path -/
+theorem codeBits_eq (t : Tree) (s : Nat) : codeBits t s = (encSym t s).length := by
+  unfold codeBits
+  rw [← length_fieldsBits, fieldsBits_encFields]
+
+/-- a code of `n` bits takes `⌈n / 32⌉` `Hbitwrite` calls, whatever `n` is -/
+theorem codeWords_eq (t : Tree) (s : Nat) : codeWords t s = (codeBits t s + 31) / 32 := by
+  obtain ⟨top, full, he, hl, ht, hf⟩ := encFields_shape t s
+  unfold codeWords codeBits
+  rw [he]
+  simp only [List.map_append, List.sum_append, List.length_append, sum_full full hf]
+  match top, hl, ht with
+  | [], _, _ => simp; omega
+  | [f], _, ht =>
+    have := ht f (by simp)
+    simp only [List.map_cons, List.map_nil, List.sum_cons, List.sum_nil, List.length_cons, List.length_nil]
+    omega
+
 end H4.SkpHuff
